@@ -548,8 +548,8 @@ def r8_pending_block(ck, F):
     from .c03 import r5_wrappers
     lk = F.body(A("bw_last_key"))
     e = lk.expr_at_return()
-    pure = is_self_field(e, "last_key") or (is_call(e, "Option::<T>::map") and is_self_field(e.strip().a[0], "last_key") and e.strip().a[1].k == "fn" and e.strip().a[1].x["path"].endswith("AsRef::as_ref"))
-    ck.ob(R, "last-key-getter-pure", pure and len(list(lk.calls())) <= 2, f"BlockWriter::last_key is a pure view of the field: {e.show()}", lk)
+    pure = pure_option_view(e, "last_key")
+    ck.ob(R, "last-key-getter-pure", pure and len(list(lk.calls())) <= 3, f"BlockWriter::last_key is a pure view of the field: {e.show()}", lk)
     r3_lastkey_life(ck, F, R)
     r1_order_assert(ck, F, R)
     # both flush sites of the data block are guarded by last_key() being Some and nothing else
